@@ -117,6 +117,32 @@ OPERATORS = [
     ("py-none-order", "break", ["C01"], CMP, r"            return -1\n", "            return 1\n", "None is ordered last (Python)"),
     ("len-formula", "break", ["C19"], LEN, r"return s1 \+ s2 - old", "return s1 + s2 + old", "wrong resolution formula"),
     ("len-cell", "break", ["C19"], LEN, r"self\.value \+= delta", "self.value = delta", "change() overwrites"),
+    # ---- C state layout (clayout), NULL-RESULT, EXC-LEAK ----------------------------------
+    ("c-state-len", "break", ["C06"], B, r"len /= 2;", "len /= 3;", "leaf reader halves the item count wrongly"),
+    ("c-state-order", "break", ["C06"], B,
+     r"(            COPY_KEY_TO_OBJECT\(o, self->keys\[i\]\);\n            if \(o == NULL\)\n            goto err;\n            PyTuple_SET_ITEM\(items, l, o\);\n            l\+\+;\n\n)(            COPY_VALUE_TO_OBJECT\(o, self->values\[i\]\);\n            if \(o == NULL\)\n            goto err;\n            PyTuple_SET_ITEM\(items, l, o\);\n            l\+\+;\n)",
+     lambda m: m.group(2) + "\n" + m.group(1), "leaf writer emits the value before the key"),
+    ("c-state-treelen", "break", ["C06"], T, r"len = \(len \+ 1\) / 2;", "len = len / 2;", "tree reader miscounts the children"),
+    ("c-state-treesize", "break", ["C06"], T, r"PyTuple_New\(self->len \* 2 - 1\)", "PyTuple_New(self->len * 2)",
+     "tree writer allocates one slot too many"),
+    ("c-state-next", "break", ["C06"], B, r'Py_BuildValue\("OO", items, self->next\)', 'Py_BuildValue("OO", self->next, items)',
+     "leaf writer swaps items and successor"),
+    ("c-state-first", "break", ["C06"], T, r"firstbucket = \(PyObject \*\)self->data->child;",
+     "firstbucket = (PyObject *)self->data[len - 1].child;", "default first bucket is the last child"),
+    ("null-result", "break", ["C16"], T, r"    b = BTree_lastBucket\(self\);\n    if \(b == NULL\)\n        goto err;\n",
+     "    b = BTree_lastBucket(self);\n", "drop the NULL test of a may-fail result"),
+    ("null-result2", "break", ["C16"], T, r"        if \(bucket == NULL\)\n            return NULL;\n", "",
+     "drop the NULL test in maxKey"),
+    ("exc-leak", "break", ["C09"], S, r"                ind = -1;  /\* the iterator failed: report its exception \*/\n", "",
+     "return the count although the iterator failed"),
+    ("exc-leak-t", "break", ["C09"], TS, r"                ind = -1;  /\* the iterator failed: report its exception \*/\n", "",
+     "return the count although the iterator failed"),
+    ("eq-c-state-index", "equiv", ["C06"], B,
+     r"        k = PyTuple_GET_ITEM\(items, l\);\n        l\+\+;\n        v = PyTuple_GET_ITEM\(items, l\);\n        l\+\+;\n",
+     "        k = PyTuple_GET_ITEM(items, 2 * i);\n        v = PyTuple_GET_ITEM(items, 2 * i + 1);\n",
+     "index the state items by 2*i instead of a running counter"),
+    ("eq-c-state-pack", "equiv", ["C06"], B, r'Py_BuildValue\("\(O\)", items\)', "PyTuple_Pack(1, items)",
+     "build the 1-tuple with PyTuple_Pack"),
     # ---- equivalence operators (must NOT alarm) ------------------------------------------
     ("eq-shift-lines", "equiv", ["C05", "C04", "C16", "C17", "C14"], B, r"\A", "/* moved */\n\n\n", "shift every line of the file"),
     ("eq-shift-lines-t", "equiv", ["C05", "C04", "C08", "C03", "C01", "C18"], T, r"\A", "/* moved */\n\n\n", "shift every line of the file"),
